@@ -51,6 +51,41 @@ theorem primOk_u32 (n : Nat) (h : n < 2 ^ 32) : primOk .u32 n = true := by
   have e : (256 : Nat) ^ 4 = 2 ^ 32 := by decide
   simp [primOk, Prim.size, e, h]
 
+theorem dUnits_wList (ver : Ver) (e : Endian) : ∀ (us : List Val) (pos : Nat) (rest : Bytes),
+    (∀ v ∈ us, unitOk v = true) →
+    dUnits ver e us.length ⟨(wList (fun v p => wPrim ver e .u16 v.unit p) us pos).1 ++ rest, pos⟩ =
+      .ok us ⟨rest, (wList (fun v p => wPrim ver e .u16 v.unit p) us pos).2⟩
+  | [], pos, rest, _ => by simp [dUnits, wList]
+  | v :: us, pos, rest, h => by
+    have hv := h v (by simp)
+    cases v with
+    | num n =>
+      simp only [unitOk] at hv
+      have hun : (Val.num n).unit = n := rfl
+      simp only [List.length_cons, dUnits, wList, hun, List.append_assoc]
+      rw [dPrim_wPrim ver e .u16 n pos _ hv]
+      simp only [Res.bind]
+      rw [dUnits_wList ver e us _ rest (fun w hw => h w (by simp [hw]))]
+    | str _ => simp [unitOk] at hv
+    | list _ => simp [unitOk] at hv
+    | struct _ => simp [unitOk] at hv
+    | absent => simp [unitOk] at hv
+
+/-- wide strings: `deserialize_wstring_type` on the output of `serialize_wstring_type` -/
+theorem dWStr_wWStr (ver : Ver) (e : Endian) (us : List Val) (pos : Nat) (rest : Bytes)
+    (hu : ∀ v ∈ us, unitOk v = true) (hv : utf16Valid (us.map Val.unit) = true) (hl : us.length + 1 < 2 ^ 32) :
+    dWStr ver e ⟨(wWStr ver e us pos).1 ++ rest, pos⟩ = .ok (.list us) ⟨rest, (wWStr ver e us pos).2⟩ := by
+  have hm : (us.length + 1) % 2 ^ 32 = us.length + 1 := Nat.mod_eq_of_lt hl
+  simp only [dWStr, wWStr, hm, List.append_assoc]
+  rw [dPrim_wPrim ver e .u32 (us.length + 1) pos _ (primOk_u32 _ hl)]
+  simp only [Res.bind]
+  have h0 : (us.length + 1 == 0) = false := by simp
+  simp only [h0, Bool.false_eq_true, if_false, Nat.add_sub_cancel]
+  rw [dUnits_wList ver e us _ _ hu]
+  simp only [Res.bind]
+  rw [dPrim_wPrim ver e .u16 0 _ rest (by decide)]
+  simp [Res.bind, hv]
+
 theorem dStr_wStr (ver : Ver) (e : Endian) (bs : Bytes) (pos : Nat) (rest : Bytes)
     (hu : utf8Valid bs = true) (hl : bs.length + 1 < 2 ^ 32) :
     dStr ver e ⟨(wStr ver e bs pos).1 ++ rest, pos⟩ = .ok (.str bs) ⟨rest, (wStr ver e bs pos).2⟩ := by
